@@ -370,34 +370,48 @@ def r4(p, rep):
     p_in, p_out = f.params[1], f.params[3]
     roles = {p_in: "IN", p_out: "OUT"}
 
-    def index_comprehensions(e, depth=0):
-        """comprehensions `X.index(v) for v in Y` that define expression e (through names / tuple()/list())"""
+    from . import ir
+
+    def perm_comprehensions(e, depth=0):
+        """comprehensions that define expression e (through names / tuple() / list())"""
         if depth > 5 or e is None:
             return []
-        if isinstance(e, (ast.ListComp, ast.GeneratorExp)) and isinstance(e.elt, ast.Call) and isinstance(e.elt.func, ast.Attribute) and e.elt.func.attr == "index":
+        if isinstance(e, (ast.ListComp, ast.GeneratorExp)):
             return [e]
         if isinstance(e, ast.Call) and isinstance(e.func, ast.Name) and e.func.id in ("tuple", "list") and e.args:
-            return index_comprehensions(e.args[0], depth + 1)
+            return perm_comprehensions(e.args[0], depth + 1)
         if isinstance(e, ast.Name):
             out = []
             for n in walk_no_nested(f.node):
                 if isinstance(n, ast.Assign) and any(isinstance(t, ast.Name) and t.id == e.id for t in n.targets):
-                    out += index_comprehensions(n.value, depth + 1)
+                    out += perm_comprehensions(n.value, depth + 1)
             return out
         return []
 
+    def sources(e, without=()):
+        """which of the two expressions (IN / OUT) the value is computed from: data dependence through locals, loops,
+        tables filled in loops and module helpers that only read their argument"""
+        names, _ = ir.derive(f.node, e)
+        return {x for x in (p_in, p_out) if x in names}
+
     for tc in tcalls:
         parg = tc.args[1] if len(tc.args) > 1 else None
-        comps = index_comprehensions(parg)
+        comps = perm_comprehensions(parg)
         if not comps:
-            raise AnalysisError("unrecognised idiom in _squeeze_transpose_broadcast: the permutation handed to transpose is not built as `X.index(v) for v in Y`")
+            raise AnalysisError("unrecognised idiom in _squeeze_transpose_broadcast: the permutation handed to transpose is not built by a comprehension")
         for d in comps:
-            pi = _provenance(f, d.elt.func.value, {p_in, p_out})
-            po = _provenance(f, d.generators[0].iter, {p_in, p_out})
+            g = d.generators[0]
+            po = _provenance(f, g.iter, {p_in, p_out})  # whose elements are enumerated (filters do not count)
+            # the element without its own loop variable: what is looked up for each axis
+            tv = {t.id for t in ast.walk(g.target) if isinstance(t, ast.Name)}
+            lookups = [x for x in ast.walk(d.elt) if isinstance(x, ast.Name) and isinstance(x.ctx, ast.Load) and x.id not in tv]
+            pi = set()
+            for x in lookups:
+                pi |= sources(x)
             ri = "/".join(sorted(roles[x] for x in pi)) or "?"
             ro = "/".join(sorted(roles[x] for x in po)) or "?"
-            ok = pi == {p_in} and po == {p_out}
-            rep.add("C01.R4", f"{f.qualname}:perm", f"{f.module.rel}:{tc.lineno}", ok, f"`{norm(d)}`: for each {ro} axis its position in the {ri} axes" + ("" if ok else " - np.transpose expects, per output position, the index of the input axis; the inverse permutation gives correct shapes only when the swapped axes have equal length"))
+            ok = po == {p_out} and p_in in pi
+            rep.add("C01.R4", f"{f.qualname}:perm", f"{f.module.rel}:{tc.lineno}", ok, f"`{norm(d)[:70]}`: for each {ro} axis its position in the {ri} axes" + ("" if ok else " - np.transpose expects, per output position, the index of the input axis; the inverse permutation gives correct shapes only when the swapped axes have equal length"))
 
 
 LOWERING_MODULES = ("adapter.decomposednamedtensor_from_classical", "adapter.decomposednamedtensor_from_vmap", "adapter.decomposednamedtensor_from_einsum", "adapter.elementary_from_classical")
